@@ -26,6 +26,7 @@ EXPECTED_REF_NAME = {
     "op": lambda sym: sym["proc"], "probe": lambda sym: sym["proc"], "sink": lambda sym: sym["proc"],
     "slicer_op": lambda sym: "SlicerFor" + sym["proc"], "slicer_probe": lambda sym: "SlicerFor" + sym["proc"],
     "sweep_src": lambda sym: sym["proc"] + "ParametricSweep", "sweep_op": lambda sym: sym["proc"] + "ParametricSweep",
+    "sweep_probe": lambda sym: sym["proc"] + "ParametricSweep",
 }
 
 
